@@ -324,7 +324,7 @@ def cases(tier, seed):
     # the same damage inside a collection whose members share the damaged table (shareTables=True)
     ttc_fonts = ["ttx/data/TestTTF.ttf", "ttx/data/TestOTF.otf", "ttLib/data/TestTTF-Regular.ttx"]
     if T:
-        ttc_fonts += [r["path"] for r in chosen if r["size"] <= 8000][:30]
+        ttc_fonts += [r["path"] for r in chosen if r["size"] <= 8000 and not r["variable"]][:30]
     for rel in dict.fromkeys(ttc_fonts):
         if _exists(rel):
             add("payload-ttc", font=rel, short=short)
@@ -989,9 +989,13 @@ def run_payload_ttc(case, ctx, rnd):
                 except S.Bad as e:
                     bad({"kind": "raw-table", "what": "output-unparsable", "container": "ttc"}, "saved collection unparsable: %s" % e, wit)
 
+    t_start = time.time()
     for tag in sorted(tabs):
         if tag == "head":
             continue      # members of one collection share everything here; head is covered by the sfnt cases
+        if time.time() - t_start > 120:
+            ctx.note("clause2:collection case stopped at its 120 s budget (remaining tables not enumerated)")
+            break
         for dname, dbytes in GF.payload_damages(tabs[tag], rnd, short=case.get("short") or (4, 8)):
             try:
                 with _deadline(40):
